@@ -859,6 +859,8 @@ func (w *world) drain() {
 }
 
 type result struct {
+	promos     int
+	fbs        int
 	finished   bool
 	fp         string
 	leftNormal bool
@@ -920,6 +922,7 @@ func runSeq(t *testing.T, c cfgT, ops []op, kind string) result {
 		w.close()
 		res.leftNormal = w.leftNormal
 		res.nViol = w.nViol
+		res.promos, res.fbs = w.promotions, w.failbacks
 		w.flush(kind)
 		res.finished = true
 	})
@@ -1028,7 +1031,7 @@ func TestBFS(t *testing.T) {
 					seen[res[i].fp] = true
 					next = append(next, s)
 				}
-				if !sampled && d >= 5 && res[i].leftNormal && res[i].nViol == 0 && strings.Contains(opsString(s), "up") {
+				if !sampled && ci < 2 && res[i].fbs > 0 && res[i].nViol == 0 {
 					sampled = true
 					col.Sample(map[string]any{"kind": "bfs", "config": c.String(), "ops": opsString(s), "end_fingerprint": res[i].fp})
 				}
@@ -1119,7 +1122,7 @@ func TestRandomWalks(t *testing.T) {
 	var sampled int32
 	parallelRun(t, n, func(wt *testing.T, i int) {
 		r := runSeq(wt, cases[i].c, cases[i].ops, "random_walk")
-		if r.leftNormal && r.nViol == 0 && atomic.AddInt32(&sampled, 1) <= 2 {
+		if r.promos > 0 && r.nViol == 0 && atomic.AddInt32(&sampled, 1) <= 1 {
 			col.Sample(map[string]any{"kind": "random-walk", "config": cases[i].c.String(), "ops": opsString(cases[i].ops)})
 		}
 	})
@@ -1266,12 +1269,18 @@ func runRounds(t *testing.T, c cfgT, seedIdx int) result {
 		w.close()
 		res.leftNormal = w.leftNormal
 		res.nViol = w.nViol
+		res.promos, res.fbs = w.promotions, w.failbacks
+		if res.promos > 0 && res.nViol == 0 && atomic.AddInt32(&roundsSampled, 1) <= 1 {
+			col.Sample(map[string]any{"kind": "concurrent-rounds", "config": c.String(), "rounds": strings.Join(w.opsDone, " "), "promotions": res.promos, "failbacks": res.fbs})
+		}
 		w.flush("concurrent")
 		col.Distinct("concurrent_round_schedules", c.String()+strings.Join(w.opsDone, " "))
 		res.finished = true
 	})
 	return res
 }
+
+var roundsSampled int32
 
 func TestConcurrentRounds(t *testing.T) {
 	n := run.Pick(600, 8000)
